@@ -41,8 +41,10 @@ static void fv_hex(const char *t, long n) {
     long i; for (i = 0; i < n; i++) printf("%02x", (unsigned char) t[i]);
     if (n == 0) printf("-");
 }
+static int fv_logreads = 0;                               /* trace the bytes delivered so far */
 void fv_log_match(int rule, const char *text, long leng, long lineno, int start, int atbol) {
     fv_event();
+    if (fv_logreads) printf("rd %ld\n", fv_read_bytes);
     printf("m %d ", rule); fv_hex(text, leng); printf(" %ld %d %d\n", lineno, start, atbol);
     /* an action execution begins: select its script (the default rule's ECHO takes none) */
     if (fv_default_rule) { fv_default_rule = 0; fv_cur_script = NULL; fv_cur_pos = 0; return; }
@@ -179,6 +181,7 @@ static void fv_load(const char *path) {
         else if (!strncmp(p, "haslineno ", 10)) fv_has_lineno = atoi(p + 10);
         else if (!strncmp(p, "maxevents ", 10)) fv_max_events = atol(p + 10);
         else if (!strncmp(p, "bufsize ", 8)) fv_bufsize = atoi(p + 8);
+        else if (!strncmp(p, "logreads ", 9)) fv_logreads = atoi(p + 9);
     }
     free(line); fclose(f);
 }
